@@ -216,6 +216,11 @@ func (w *world) alphabet(profile string) []letter {
 		}
 		ls = append(ls, kmLetters()...)
 	}
+	if w.opts.Runtime && profile == "halt" {
+		// the runtime's owner falls below its stake claims: the runtime must be suspended at the next epoch, not halt the chain
+		e0 := staking.NewAddress(w.keys.Entities[0].Public())
+		ls = append(ls, letter{Name: "reclaim(e0<-e0,900sh) owner understaked", Txs: []txT{{Name: "reclaim(e0<-e0,900sh)", Signer: w.keys.Entities[0], Method: staking.MethodReclaimEscrow, Body: staking.ReclaimEscrow{Account: e0, Shares: qq(900)}}}})
+	}
 	if w.opts.Runtime {
 		for _, rs := range []roundSpec{
 			{Who: "all"}, {Who: "all", Msgs: "transfer", InMsgs: "all"}, {Who: "scheduler"}, {Who: "dissent"}, {Who: "failure"}, {Who: "backup"},
